@@ -597,7 +597,7 @@ class _function(object):
         # convert other to matrix (dense 'd' or sparse) or _function
         if type(other) is int or type(other) is float:
             other = matrix(other, tc='d')
-        elif _isdmatrix(other):
+        elif _ismatrix(other):
             if other.size[1] != 1: 
                 raise ValueError('incompatible dimensions')
         elif type(other) is variable:
